@@ -499,6 +499,7 @@ func c01Quiescent(c *rig.Ctx, st *c01Store, m *oracle.Model, committed hash.Hash
 // Register wires the vstore checks.
 func Register() {
 	rig.Register(&rig.Spec{Prop: "C01", Level: "exploration", Stages: []rig.Stage{{Name: "reads", Fn: c01}}})
+	rig.Register(&rig.Spec{Prop: "C41", Level: "exploration", Stages: []rig.Stage{{Name: "openmodes", Fn: c41}}})
 	rig.Register(&rig.Spec{Prop: "C05", Level: "fault_enumeration", Stages: []rig.Stage{{Name: "crash", Fn: c05Crash}, {Name: "race", Fn: c05Race}}})
 	rig.Register(&rig.Spec{Prop: "C04", Level: "fault_enumeration", Stages: []rig.Stage{{Name: "indexvariants", Fn: c04}}})
 	rig.Register(&rig.Spec{Prop: "C03", Level: "fault_enumeration", Stages: []rig.Stage{{Name: "crashimages", Fn: c03}}})
